@@ -71,6 +71,13 @@ class DLTIFilter(object):
             D *= (z - p)
         a = D.coeffs()
 
+        # Align the coefficient lists (z^0, z^-1, ...) when the numbers
+        # of zeros and poles differ.
+        if len(b) < len(a):
+            b = [0] * (len(a) - len(b)) + list(b)
+        elif len(a) < len(b):
+            a = [0] * (len(b) - len(a)) + list(a)
+
         return cls(b, a)
 
     @classmethod
